@@ -677,16 +677,9 @@ func (e *Engine) snapshotBytes(st *State, s Val) *smt.Term {
 	var dst *smt.Term
 	if s.off().IsConst() && s.off().V == 0 {
 		dst = src
-	} else if s.Bound > 0 && s.Bound <= 512 {
-		dst = e.zeroOf(smt.Array(IntSort, smt.BV(8)))
-		for k := 0; k < s.Bound; k++ {
-			kk := X.Const(uint64(k), 64)
-			dst = X.Store(dst, kk, X.Select(src, X.BVAdd(s.off(), kk)))
-		}
 	} else {
-		dst = X.Fresh("snap", smt.Array(IntSort, smt.BV(8)))
-		j := X.BVar("j", IntSort)
-		e.assume(X.Forall([]*smt.Term{j}, X.Implies(X.Ult(j, s.ln()), X.Eq(X.Select(dst, j), X.Select(src, X.BVAdd(s.off(), j))))))
+		j := X.BVar("sj", IntSort)
+		dst = X.Lambda(j, X.Select(src, X.BVAdd(s.off(), j)))
 	}
 	e.setHeap(st, key, X.Store(h, ref, dst))
 	return ref
